@@ -176,6 +176,11 @@ def frameDigit : CDSFrame → Str
 
 /-! ### the writer -/
 
+/-- qualifiers every record of a transcript starts from: export_qualifiers + `/gene` + `/locus_tag` -/
+def txBaseQuals (q0 : QDict) (symbol locusTag : Option Str) : QDict :=
+  let q1 := match symbol with | some s => dictSet q0 "gene".toList [s] | none => q0
+  match locusTag with | some s => dictSet q1 "locus_tag".toList [s] | none => q1
+
 /-- qualifiers of the CDS record: the transcript-level qualifiers (+ `/codon_start`, proposed patch for F-C12a:
     `feature.qualifiers["codon_start"] = [start_frame.value + 1]`, before the translation) -/
 def cdsBaseQuals (cfg : Cfg) (t : Tx) (txQuals : QDict) : QDict :=
@@ -209,11 +214,6 @@ def featTypeOf (nm : Option Str) (coding : Bool) : Str :=
   | some c => if transcriptFeatureValues.contains c then c else if coding then "mRNA".toList else "misc_RNA".toList
   | none => if coding then "mRNA".toList else "misc_RNA".toList
 
-/-- qualifiers every record of a transcript starts from: export_qualifiers + `/gene` + `/locus_tag` -/
-def txBaseQuals (q0 : QDict) (symbol locusTag : Option Str) : QDict :=
-  let q1 := match symbol with | some s => dictSet q0 "gene".toList [s] | none => q0
-  match locusTag with | some s => dictSet q1 "locus_tag".toList [s] | none => q1
-
 def txRecord (cfg : Cfg) (t : Tx) (ft : Str) (strand : Strand) (q : QDict) : Rec :=
   { type := ft, strand := strand, parts := toBiopythonParts cfg.rule t.strand t.exons,
     quals := dictDel (dictDel q "protein_id".toList) "translation".toList }
@@ -242,14 +242,14 @@ def transcriptToFeatures (cfg : Cfg) (seq : Option Str) (strand : Strand) (symbo
           | .ok c => .ok [txRecord cfg t ft strand q2, c]
         else .ok [txRecord cfg t ft strand q2]
 
-/-- one iteration of `for feature in features` in `feature_intervals_to_features` -/
+def featRecord (cfg : Cfg) (strand : Strand) (name locusTag : Option Str) (x : FeatI) : Rec :=
+  { type := "feat_interval".toList, strand := strand, parts := toBiopythonParts cfg.rule x.strand x.blocks,
+    quals := txBaseQuals (featExportQuals x) (truthy name) (truthy locusTag) }
+
+/-- one iteration of `for feature in features` in `feature_intervals_to_features`
+    (`if feature_name:` / `if locus_tag:` set `/gene` and `/locus_tag`) -/
 def featureToFeatures (cfg : Cfg) (strand : Strand) (name locusTag : Option Str) (x : FeatI) : List Rec :=
-  let q0 := featExportQuals x
-  let q1 := match truthy name with | some s => dictSet q0 "gene".toList [s] | none => q0
-  let q2 := match truthy locusTag with | some s => dictSet q1 "locus_tag".toList [s] | none => q1
-  if x.strand ≠ strand ∧ ¬ cfg.forceStrand then []
-  else [{ type := "feat_interval".toList, strand := strand, parts := toBiopythonParts cfg.rule x.strand x.blocks,
-          quals := q2 }]
+  if x.strand ≠ strand ∧ ¬ cfg.forceStrand then [] else [featRecord cfg strand name locusTag x]
 
 def mapMR {α β} (f : α → R β) : List α → R (List β)
   | [] => pure []
@@ -278,11 +278,14 @@ def geneToFeatures (cfg : Cfg) (seq : Option Str) (g : Gene) : R (List Rec) :=
 def fcSymbolOf (f : FColl) : Option Str := (truthy f.name).orElse fun _ => truthy f.id
 def fcTagOf (f : FColl) : Option Str := (truthy f.locusTag).orElse fun _ => fcSymbolOf f
 
+/-- `qualifiers[feature_type] = [symbol]` then `qualifiers["locus_tag"] = [tag]` -/
+def fcRecQuals (q0 : QDict) (symbol tag : Option Str) : QDict :=
+  let q1 := match symbol with | some s => dictSet q0 "misc_feature".toList [s] | none => q0
+  match tag with | some s => dictSet q1 "locus_tag".toList [s] | none => q1
+
 def fcRecord (strand : Strand) (bounds : Blk) (f : FColl) : Rec :=
-  let q0 := fcExportQuals f
-  let q1 := match fcSymbolOf f with | some s => dictSet q0 "misc_feature".toList [s] | none => q0
-  let q2 := match fcTagOf f with | some s => dictSet q1 "locus_tag".toList [s] | none => q1
-  { type := "misc_feature".toList, strand := strand, parts := [bounds], quals := q2 }
+  { type := "misc_feature".toList, strand := strand, parts := [bounds],
+    quals := fcRecQuals (fcExportQuals f) (fcSymbolOf f) (fcTagOf f) }
 
 /-- `gene_to_feature` on a `FeatureIntervalCollection`
     (NB the children get `gene_or_feature.locus_tag`, without the fall-back to the symbol) -/
